@@ -1234,7 +1234,7 @@ func (ctx *RenderContext) getItem(container, index interface{}) (interface{}, er
 				return nil, nil // A nil key matches nothing
 			}
 
-			if indexValue.Type().ConvertibleTo(keyType) {
+			if indexValue.Type().ConvertibleTo(keyType) && indexValue.Comparable() {
 				mapKey = indexValue.Convert(keyType)
 			} else {
 				// Try string conversion for the key
